@@ -357,18 +357,7 @@ func emitCase(o *hlib.Out, h *History, all [][]obs) {
 		}
 	}
 	nontrivial = nUpd >= 3 && len(cl.seen) >= 2
-	// position of every root class in the byte order of the root hashes
-	ranks := make([]string, len(cl.seen))
-	for i, a := range cl.seen {
-		n := 0
-		for _, b := range cl.seen {
-			if bytes.Compare(b, a) < 0 {
-				n++
-			}
-		}
-		ranks[i] = fmt.Sprintf("%d%%N", n)
-	}
-	term := hlib.App("CASE", hlib.ListHx(t.list), hlib.List(ranks), hlib.List(ops), hlib.List(runs))
+	term := hlib.App("CASE", hlib.ListHx(t.list), hlib.List(ops), hlib.List(runs))
 	o.Emit(h.Kind, nontrivial, term, h, map[string]interface{}{"runs": impl, "distinctRoots": len(cl.seen), "maxSize": maxSize})
 }
 
@@ -413,7 +402,8 @@ func genHistory(r *hlib.Rng, class string) *History {
 		nops, nkeys, maxw, nh = r.Range(4, 8), r.Range(2, 5), 3, r.Range(2, 3)
 	case "alias":
 		// large trees (root height > 2: ARC-cached), few block heights (the prune bookkeeping
-		// reloads the roots of a height), many updates without writes: known findings 2 and 3
+		// reloads the roots of a height), many updates without writes: known finding 2 and the
+		// repaired finding 3 (a cached root object must say its own hash)
 		nops, nkeys, maxw, nh, mixed = r.Range(8, 14), r.Range(8, 14), 4, r.Range(1, 2), false
 	default: // mixed-large
 		nops, nkeys, maxw, nh = r.Range(8, 16), r.Range(8, 16), 8, r.Range(1, 4)
